@@ -310,6 +310,13 @@ def run_impl(case):
             return _sres(b) if b[0] == 'err' else {'crash': str(b)}
         w = b[1]
         grid = np.array([float(F(t)) for t in case['grid']], dtype=float)
+        if case.get('tdtype'):
+            # round 5 family (h): the SAME times in another representation (integer / single / half precision array); used
+            # only when every time is exactly representable, so the rational grid of the case stays what the code sees
+            with np.errstate(all='ignore'):
+                alt = grid.astype(case['tdtype'])
+            if np.array_equal(alt.astype(float), grid):
+                grid = alt
         ok_grid = _grid_ok(case['grid'], vlib.to_fraction(w.duration))
         per = []
         keep = []
@@ -361,6 +368,8 @@ def run_impl(case):
             out['mutated'] = mutated
         if k == 'sample':
             api = _api_probes(w, per, np)
+            if case.get('tdtype') and ok_grid and len(grid):
+                api += _out_array_probe(case, grid, per, np)
             if api:
                 out['api'] = api
         return out
@@ -420,6 +429,26 @@ def _api_probes(w, per, np):
             if got != want:
                 bad.append('get_sampled(%r, %d times, output array: %s [%d]) -> %s, expected %s'
                            % (ch, len(t), name, len(o), got, want))
+    return bad
+
+
+def _out_array_probe(case, grid, per, np):
+    """family (h): the answer must not depend on whether a result array is supplied (a float64 array with garbage in it),
+    whatever the representation of the times -> complaints"""
+    bad = []
+    for p in per:
+        if 'ok' not in p['gs']:
+            continue
+        ch = CH[p['c']]
+        def call():
+            o = np.full(len(grid), _GARBAGE)
+            ts = grid.copy()
+            r = _build_case(case).get_sampled(ch, ts, o)
+            return _vals(r) if r is o else 'another array'
+        g = _guard(call)
+        if g[0] != 'ok' or g[1] != p['gs']['ok']:
+            bad.append('get_sampled(%r, %s times) answers %r without and %r with a supplied float64 result array'
+                       % (ch, case['tdtype'], p['gs']['ok'], g[1] if g[0] in ('ok', 'err') else g))
     return bad
 
 
@@ -1523,6 +1552,129 @@ def gen_ctor_targets(rng, n):
     return out
 
 
+FINE = [F(3, 4) + F(1, 2 ** 30), F(-5, 2) - F(1, 2 ** 30), F(1, 2) + F(1, 2 ** 28), F(-1, 4) - F(3, 2 ** 29), F(7, 4), F(-3, 4)]
+TDTYPES = ['int64', 'int32', 'int8', 'uint8', 'uint16', 'float32', 'float16']
+REPR_KINDS = ['const', 'multi-const', 'seq-fold', 'seq-plain', 'rep', 'parallel', 'scale-const', 'arith-const', 'functor',
+              'subset', 'rev', 'nonconst', 'mixed-multi', 'trans-nonconst', 'func0']
+
+
+def gen_repr_targets(rng, tier):
+    """round 5, family (h): blind class of seed C08-8 = *every time array the harness ever made was a float64 array*.  The
+    same rational times handed over as int64 / int32 / int8 / uint8 / uint16 arrays (integer grids) and as float32 /
+    float16 arrays (1/16 grids), for waveforms that REPORT a constant on the sampled channel (constant leaf, folded and
+    unfolded sequences of equal constants, repetition, multi-channel with constant parts, parallel-added constant,
+    constant folded through scaling, arithmetic of constants, functor, subset, reversal, constant-expression function)
+    and for non-constant ones.  The constants are not representable in the array's type (3/4 + 2^-30: neither an integer
+    nor a single precision number), so an answer that inherits the representation of the times is off.
+    Deterministic: kind x dtype round robin; thorough: every pair, 3 variants."""
+    out = []
+    pairs = [(k, t) for k in REPR_KINDS for t in TDTYPES]
+    if tier == 'quick':
+        pairs = [(REPR_KINDS[i % len(REPR_KINDS)], TDTYPES[(i + i // len(REPR_KINDS)) % len(TDTYPES)]) for i in range(45)]
+    else:
+        pairs = pairs * 3
+    for kind, dt in pairs:
+        c, c2, c3 = rng.sample([0, 1, 2, 3, 4], 3)
+        d = F(rng.choice([1, 2]))
+        fine = lambda: fs(rng.choice(FINE))      # noqa
+        opt = rng.random() < 0.5
+        chans, dur = [c], d
+        if kind == 'const':
+            r = ['const', fs(d), fine(), c]
+        elif kind == 'multi-const':
+            r, chans = ['multi', opt, [['const', fs(d), fine(), c], nonconst_leaf(rng, c2, d), ['const', fs(d), fine(), c3]]], [c, c2, c3]
+        elif kind == 'seq-fold':
+            v = fine()
+            r, dur = ['seq', True, [['const', fs(d), v, c], ['const', '1', v, c], ['const', fs(d), v, c]]], 2 * d + 1
+        elif kind == 'seq-plain':
+            v = fine()
+            r, dur = ['seq', False, [['const', fs(d), v, c], ['const', '1', v, c]]], d + 1
+        elif kind == 'rep':
+            n = rng.choice([2, 3])
+            r, dur = ['rep', opt, ['const', fs(d), fine(), c], n], d * n
+        elif kind == 'parallel':
+            r, chans = ['trans', opt, nonconst_leaf(rng, c, d), ['parallel', [[c2, ['c', fine()]]]]], [c, c2]
+        elif kind == 'scale-const':
+            r = ['trans', opt, ['const', fs(d), fine(), c], rng.choice([['scale', [[c, ['c', '2']]]], ['offset', [[c, ['c', '1/2']]]], ['id']])]
+        elif kind == 'arith-const':
+            r = ['arith', opt, ['const', fs(d), fine(), c], rng.choice('+-'), ['const', fs(d), fs(rng.choice(VOLT)), c]]
+        elif kind == 'functor':
+            r = ['functor', opt, ['const', fs(d), fine(), c], [[c, rng.choice(['neg', 'abs', 'pos'])]]]
+        elif kind == 'subset':
+            m = ['multi', opt, [['const', fs(d), fine(), c], ['const', fs(d), fine(), c2]]]
+            r = [rng.choice(['subset', 'getsubset']), m, [c]]
+        elif kind == 'rev':
+            r = [rng.choice(REV), rng.choice([['const', fs(d), fine(), c], ['multi', False, [['const', fs(d), fine(), c]]]])]
+        elif kind == 'func0':
+            r = ['func', [fine()], fs(d), c] + ([True] if opt else [])
+        elif kind == 'nonconst':
+            r, dur = ['seq', opt, [nonconst_leaf(rng, c, d), nonconst_leaf(rng, c, F(1))]], d + 1
+        elif kind == 'mixed-multi':
+            r, dur, chans = ['rep', opt, ['multi', opt, [nonconst_leaf(rng, c, d), ['const', fs(d), fine(), c2]]], 2], 2 * d, [c, c2]
+        else:
+            r = ['trans', opt, nonconst_leaf(rng, c, d), rng.choice([['scale', [[c, gen_tval(rng)]]], ['offset', [[c, ['c', fine()]]]]])]
+        n = int(dur)
+        if dt.startswith('float'):
+            grid = sorted({i * Q4 + rng.choice(OFFS) for i in range(4 * n) if rng.random() < 0.6} | {F(0), F(1, 16)})
+        else:
+            grid = [F(i) for i in range(n) if i == 0 or rng.random() < 0.8]
+            if rng.random() < 0.3:
+                grid = grid + [grid[-1]]
+        out.append({'kind': 'sample', 'grid_kind': 'repr', 'r': r, 'grid': [fs(t) for t in grid], 'chans': sorted(chans),
+                    'family': 'repr:' + kind, 'tdtype': dt})
+    return out
+
+
+def gen_eq_targets(rng):
+    """round 5, family (i): equality pairs that differ in exactly ONE slot, for EVERY class (before: `perturb` of a random
+    node in 15 % of the random pairs; a FunctorWaveform whose functor differs was compared a few times per run at best, and
+    every rejected functor pair was filed under C08-functor-unhashable).  (r1, r2, tag): r2 = r1 with one slot changed
+    (must compare unequal: a == b demands the same samples), and r1 against an independently built copy of itself."""
+    d = F(1)
+    c, c2 = rng.sample([1, 2, 3, 4], 2)
+    a = nonconst_leaf(rng, c, d)
+    b = nonconst_leaf(rng, c, d)
+    while b == a:
+        b = nonconst_leaf(rng, c, d)
+    a2 = nonconst_leaf(rng, c2, d)
+    v1, v2 = [fs(x) for x in rng.sample(VOLT, 2)]
+    out = []
+    for opt in (False, True):
+        out += [
+            (['functor', opt, a, [[c, 'neg']]], ['functor', opt, a, [[c, 'abs']]], 'functor-dict'),
+            (['functor', opt, ['multi', False, [a, a2]], [[c, 'neg'], [c2, 'pos']]],
+             ['functor', opt, ['multi', False, [a, a2]], [[c, 'neg'], [c2, 'abs']]], 'functor-dict2'),
+            (['functor', opt, a, [[c, 'neg']]], ['functor', opt, b, [[c, 'neg']]], 'functor-inner'),
+            (['neg', a], ['functor', opt, a, [[c, 'abs']]], 'neg-vs-abs'),
+            (['trans', opt, a, ['scale', [[c, ['c', '2']]]]], ['trans', opt, a, ['scale', [[c, ['c', '3']]]]], 'trans-value'),
+            (['trans', opt, a, ['scale', [[c, ['c', '2']]]]], ['trans', opt, a, ['offset', [[c, ['c', '2']]]]], 'trans-kind'),
+            (['trans', opt, a, ['scale', [[c, ['c', '2']]]]], ['trans', opt, b, ['scale', [[c, ['c', '2']]]]], 'trans-inner'),
+            (['arith', opt, a, '+', b], ['arith', opt, a, '-', b], 'arith-op'),
+            (['arith', opt, a, '-', b], ['arith', opt, b, '-', a], 'arith-sides'),
+            (['rep', opt, a, 2], ['rep', opt, a, 3], 'rep-count'),
+            (['rep', opt, a, 2], ['rep', opt, b, 2], 'rep-body'),
+            (['seq', opt, [a, b]], ['seq', opt, [b, a]], 'seq-order'),
+            (['seq', opt, [a, b]], ['seq', opt, [a, b, a]], 'seq-length'),
+            (['multi', opt, [a, a2]], ['multi', opt, [b, a2]], 'multi-part'),
+            (['subset', ['multi', opt, [a, a2]], [c]], ['subset', ['multi', opt, [a, a2]], [c2]], 'subset-channels'),
+            (['subset', ['multi', opt, [a, a2]], [c]], ['subset', ['multi', opt, [b, a2]], [c]], 'subset-inner'),
+            (['rev', a], ['rev', b], 'rev-inner'),
+            (['rev', a], a, 'rev-vs-plain'),
+            (['const', '1', v1, c], ['const', '1', v2, c], 'const-value'),
+            (['const', '1', v1, c], ['const', '2', v1, c], 'const-duration'),
+            (['const', '1', v1, c], ['const', '1', v1, c2], 'const-channel'),
+            (['func', [v1, '1'], '1', c], ['func', [v1, '2'], '1', c], 'func-expression'),
+            (['func', [v1, '1'], '1', c], ['func', [v1, '1'], '2', c], 'func-duration'),
+            (['table', opt, c, [['0', v1, 'h'], ['1', v2, 'l']]], ['table', opt, c, [['0', v1, 'h'], ['1', v2, 'j']]], 'table-interpolation'),
+            (['table', opt, c, [['0', v1, 'h'], ['1', v2, 'l']]], ['table', opt, c2, [['0', v1, 'h'], ['1', v2, 'l']]], 'table-channel'),
+        ]
+    res = []
+    for r1, r2, tag in out:
+        res.append({'kind': 'eq', 'r1': r1, 'r2': r2, 'family': 'eq1:' + tag})
+        res.append({'kind': 'eq', 'r1': r2, 'r2': r2, 'family': 'eq1:same'})
+    return res
+
+
 def malformed_recipes(rng):
     c = lambda d, v, ch: ['const', fs(d), fs(v), ch]   # noqa
     t = lambda ch, ents, val=True: ['table', val, ch, [[fs(a), fs(b), i] for a, b, i in ents]]   # noqa
@@ -1754,7 +1906,9 @@ def gen_dec_cases(rng, tier):
 
 
 def extra_evidence(ctx):
-    return {'time_arrays_reallocated': _STATS['realloc_tried'], 'of_these_at_the_same_address': _STATS['realloc_same_address'],
+    return {'known_finding_candidates_judged_in_coq': _EXC_STATS['evaluated'], 'filed_as_known_finding': _EXC_STATS['excused'],
+            'input_class_of_a_known_finding_but_not_that_defect': _EXC_STATS['refused'],
+            'time_arrays_reallocated': _STATS['realloc_tried'], 'of_these_at_the_same_address': _STATS['realloc_same_address'],
             'inexact_cases': _STATS['inexact_cases'], 'inexact_samples_compared': _STATS['inexact_samples'],
             'inexact_tolerance_abs': '2^-30',
             'inexact_note': 'decimal stream (kind dec): durations k/10, k/3, k/5, k/6, k/7, k/100 as exact TimeType, grid '
@@ -1910,6 +2064,11 @@ def gen_cases(rng, tier, ctx):
         grid = sorted({i * Q4 for i in range(n)} | {i * Q4 + F(1, 8) for i in range(n)} | {dur - F(1, 16)})
         cases.append({'kind': 'sample', 'grid_kind': 'mixed', 'r': r, 'grid': [fs(t) for t in grid], 'chans': sorted(chans),
                       'family': tag})
+    # ---- round 5 family (h): the representation of the time array (after everything else) ----
+    cases += gen_repr_targets(rng, tier)
+    # ---- round 5 family (i): equality pairs that differ in exactly one slot, every class ----
+    for _ in range(1 if tier == 'quick' else 8):
+        cases += gen_eq_targets(rng)
     return cases
 
 
@@ -2032,7 +2191,10 @@ def histogram_keys(case, obs):
     if case.get('sparse'):
         keys.append('sparse:' + case['sparse'])
     if case.get('family'):
-        keys.append('family:' + case['family'].split('/')[0])
+        keys.append('family:' + case['family'].split('/')[0].split(':')[0] if case['family'].startswith(('repr:', 'eq1:'))
+                    else 'family:' + case['family'].split('/')[0])
+    if case.get('tdtype'):
+        keys.append('time-array-dtype:' + case['tdtype'])
     if k == 'hist':
         keys.append('hist-style:' + case.get('style', 'classic'))
         if case.get('arr', 'plain') != 'plain':
@@ -2064,37 +2226,112 @@ REV = ('rev', 'fromrev', 'reversed')
 COMPOSITE = ('seq', 'rep')
 
 
-def classify(case, obs):
-    """id of the known finding a failing case belongs to (see known_findings.d/C08.json), else None"""
+def _candidates(case, obs):
+    """the known findings whose INPUT CLASS the case belongs to, in the order of preference, each with the Coq function
+    (Corr.v) that decides whether the rejected observation is exactly that defect:
+      check_excused    model = implementation AND the specification accepts everything except NaN at t = duration / times the
+                       junction guard badT excludes / KeyError where the plain composite has kerr
+      check_excused_q  the same + any time on the 1/4 grid (final-triple tables)
+      check_corr       model = implementation (whole-answer findings: cache, hash)"""
     k = case['kind']
     r = case.get('r') or case.get('r1')
-    if k == 'dec':
-        return None     # round 4: C08-nested-junction-float-rounding is repaired (55554c3 + e2c868b): nothing is excused any more
+    out = []
+    if k == 'dec' or 'crash' in obs or 'hang' in obs:
+        return out      # round 4: C08-nested-junction-float-rounding is repaired (55554c3 + e2c868b): nothing is excused any more
     if k == 'hist' and _shadowed_linear_after_producer(r) and not _hist_inplace(case):
-        return 'C08-trafo-cache-shadowed-byproduct'
+        out.append(('C08-trafo-cache-shadowed-byproduct', 'check_corr'))
+    if k in ('sample', 'hist') and _has_parallel_before_linear(r) and _has_keyerror(obs):
+        out.append(('C08-chain-parallel-linear-keyerror', 'check_excused'))
     if k == 'sample' and has_kind(r, COMPOSITE) and 'built' in obs:
         dur = F(obs['built']['dur'])
         grid = [F(t) for t in case['grid']]
         on = any(t % Q4 == 0 for t in grid)
         if has_kind(r, REV) and on:
-            return 'C08-reversed-composite-junction'
+            out.append(('C08-reversed-composite-junction', 'check_excused'))
         if dur in grid:
-            return 'C08-nan-at-duration'
+            out.append(('C08-nan-at-duration', 'check_excused'))
     if k == 'hist':
         if has_kind(r, COMPOSITE) and _hist_hits_boundary(case):
-            return 'C08-reversed-composite-junction' if has_kind(r, REV) else 'C08-nan-at-duration'
+            out.append(('C08-reversed-composite-junction' if has_kind(r, REV) else 'C08-nan-at-duration', 'check_excused'))
         if has_kind(r, ('trans',)) and _hist_inplace(case):
-            return 'C08-trafo-cache-stale-after-inplace-times'
+            out.append(('C08-trafo-cache-stale-after-inplace-times', 'check_corr'))
     # a from_table table with three entries at ITS final time: any grid point on a multiple of 1/4 can be that time
     # (sequence offsets, reversal map t = 0 to the end of a part); "off" grids never are
     if k == 'sample' and 'built' in obs and _table_final_triple(r) and any(F(t) % Q4 == 0 for t in case['grid']):
-        return 'C08-table-dedup-final-triple'
+        out.append(('C08-table-dedup-final-triple', 'check_excused_q'))
     if k == 'hist' and _table_final_triple(r) and _hist_hits_boundary(case):
-        return 'C08-table-dedup-final-triple'
-    if k in ('sample', 'hist') and _has_parallel_before_linear(r) and _has_keyerror(obs):
-        return 'C08-chain-parallel-linear-keyerror'
+        out.append(('C08-table-dedup-final-triple', 'check_excused_q'))
     if k == 'eq' and obs.get('built') and obs.get('eq') and obs.get('hash_eq') is None and has_kind(r, ('functor', 'neg')):
-        return 'C08-functor-unhashable'
+        out.append(('C08-functor-unhashable', 'check_corr'))
+    return out
+
+
+_EXC_FUNCS = ['check_corr', 'check_excused', 'check_excused_q']
+_EXC_MEMO = {}       # key -> {function: verdict}
+_EXC_PENDING = {}    # key -> (case, obs): collected by py_spec (called for every case before the decision), evaluated in ONE batch
+_EXC_STATS = {'evaluated': 0, 'excused': 0, 'refused': 0}
+
+
+def _exc_key(case, obs):
+    return vlib.canonical_hash([case, obs])
+
+
+def _maybe_rejected(case, obs):
+    """cheap necessary condition for "check_spec / py_spec may reject this observation" (only to keep the batch small; a case
+    that is rejected without it is evaluated on demand)"""
+    k = case['kind']
+    r = case.get('r') or case.get('r1')
+    if k == 'eq':
+        return obs.get('hash_eq') is None
+    if k == 'sample':
+        if 'built' not in obs:
+            return True
+        if any('ok' not in p['gs'] or None in p['gs']['ok'] for p in obs['built']['per']):
+            return True
+        return (has_kind(r, REV) and has_kind(r, COMPOSITE)) or _table_final_triple(r)
+    if k == 'hist':
+        if any('ok' not in a or None in a['ok'] for a in obs.get('answers', [])) or obs.get('answers') != obs.get('fresh'):
+            return True
+        return (has_kind(r, REV) and has_kind(r, COMPOSITE)) or _table_final_triple(r)
+    return False
+
+
+def _exc_run(items):
+    """items: [(key, case, obs)] -> verdicts of the three Coq functions into _EXC_MEMO (a failing evaluation = refused)"""
+    if not items:
+        return
+    wd = os.path.join(vlib.CASES, 'C08.exc.%d' % os.getpid())
+    try:
+        res = vlib.run_coq_cases(wd, CORR_IMPORTS, _EXC_FUNCS, [to_coq(c, o) for _, c, o in items], shard=SHARD)
+    except Exception:      # noqa
+        res = None
+    finally:
+        vlib.rmtree(wd)
+    fails = None if res is None else {f: set(res[f]) for f in _EXC_FUNCS}
+    for i, (key, _, _) in enumerate(items):
+        _EXC_MEMO[key] = {f: (fails is not None and i not in fails[f]) for f in _EXC_FUNCS}
+    _EXC_STATS['evaluated'] += len(items)
+
+
+def classify(case, obs):
+    """id of the known finding a REJECTED case belongs to (see known_findings.d/C08.json), else None.  Round 5: the input
+    class alone (a composite below a reversal on an on-grid time ...) is no longer enough: the observation must be exactly
+    the known defect as modelled (Corr.v `excused`): a changed implementation inside a finding's input class is a
+    VIOLATION, not a known finding."""
+    cands = _candidates(case, obs)
+    if not cands:
+        return None
+    key = _exc_key(case, obs)
+    if key not in _EXC_MEMO:
+        _EXC_PENDING.setdefault(key, (case, obs))
+        _exc_run([(k2, c, o) for k2, (c, o) in _EXC_PENDING.items() if k2 not in _EXC_MEMO])
+        _EXC_PENDING.clear()
+    v = _EXC_MEMO.get(key, {})
+    for fid, fn in cands:
+        if v.get(fn):
+            _EXC_STATS['excused'] += 1
+            return fid
+    _EXC_STATS['refused'] += 1
     return None
 
 
@@ -2200,6 +2437,8 @@ def _hist_inplace(case):
 def py_spec(case, obs):
     if 'crash' in obs or 'hang' in obs:
         return None
+    if _maybe_rejected(case, obs) and _candidates(case, obs):
+        _EXC_PENDING.setdefault(_exc_key(case, obs), (case, obs))     # for classify: evaluated in one batch
     if obs.get('mutated'):
         return 'the sampler changed the content of the time array it was given'
     if obs.get('api'):
@@ -2394,8 +2633,11 @@ def _spec_failures(cases, ctx, tag):
     try:
         terms = [to_coq(c, o) for c, o in zip(cases, obs)]
         wd = os.path.join((ctx or {}).get('workdir') or os.path.join(vlib.CASES, 'C08.search'), tag)
-        res = vlib.run_coq_cases(wd, CORR_IMPORTS, [CHECK_SPEC], terms, shard=SHARD)
+        res = vlib.run_coq_cases(wd, CORR_IMPORTS, [CHECK_SPEC] + _EXC_FUNCS, terms, shard=SHARD)
         bad |= set(res[CHECK_SPEC])
+        for i, (c, o) in enumerate(zip(cases, obs)):       # verdicts for classify
+            if i in bad and _candidates(c, o):
+                _EXC_MEMO[_exc_key(c, o)] = {f: i not in res[f] for f in _EXC_FUNCS}
     except RuntimeError:
         pass
     return obs, sorted(bad)
